@@ -74,7 +74,7 @@ def crossed(draw):
             li = len(players)
             players.append(PR)
             # lottery rewards include near-coincident large values (1e-6 absolute < gap < 1e-9 relative)
-            rew.append(draw(st.sampled_from(games.GENERIC_REWARDS + (4097.0, 4097.000002, 2e9, 2e9 + 1))))
+            rew.append(draw(st.sampled_from(games.GENERIC_REWARDS + (4097.0, 4097.000002, 2e9, 2e9 + 1, 1e20, 3e25, 10 ** 25))))
             if q == 1.0:
                 tl.append([(1, 1)])
             elif q == 0.0:
